@@ -86,3 +86,9 @@ Print Assumptions C11_never_foreign.
 Print Assumptions C11_count_exact.
 Print Assumptions C11_capacity_exact.
 Print Assumptions C11_replace_policy.
+
+(* the two constants the capacity theorems use are the engine's (dumped from the running engine on every run) *)
+From FG.gen Require Import Tables_gen.
+Theorem C11_constants_dumped :
+  c_tt_entry_size = Z.of_N TTImpl.TtEntrySize /\ c_tt_entry_sizeof = Z.of_N TTImpl.TtEntrySize /\ c_tt_max_size_mb = TTImpl.MaxSizeInMB.
+Proof. repeat split; reflexivity. Qed.
